@@ -9,9 +9,13 @@
               while the snapshot phase holds plk; a Protect AFTER the snapshot
               does not save the peer: that is what the code guarantees),
      (b) [32] ... to a peer inside its grace period when snapshotted,
+         [37] ... to a candidate that is inside its grace period when it is
+              closed (an early-tagged candidate whose first Connected arrived
+              after the snapshot restarts its grace period: the selection loop
+              re-checks firstSeen),
          [30] ... to a peer that was not snapshotted at all,
      (c) [34] when the trim went ahead, the connections left on the live
-              candidates number at most low + the connections that Connected
+              candidates that are still out of grace number at most low + the connections that Connected
               added to a live candidate after its snapshot; [33] a trim that
               found the count at or below the low watermark closes nothing,
      (d) [36] a value read by the sort's comparator equals the peer's tag total
@@ -50,8 +54,21 @@ Definition m_relive (a : astate) (l : list (nat * bool)) : list (nat * bool) :=
 Definition m_has_live (p : nat) (l : list (nat * bool)) : bool :=
   match find (fun e : nat * bool => Nat.eqb (fst e) p) l with Some e => snd e | None => false end.
 
-Definition m_remaining (a : astate) (l : list (nat * bool)) (cl : list (nat * nat)) : Z :=
-  zsum (map (fun e : nat * bool => if snd e then remaining_of a cl (fst e) else 0) l).
+(* connections left on the live candidates that are still out of grace (a
+   candidate whose grace period restarted after its snapshot - an early-tagged
+   peer that connected meanwhile - is no longer eligible and is left alone) *)
+Definition m_remaining (a : astate) (g : Z) (l : list (nat * bool)) (cl : list (nat * nat)) : Z :=
+  zsum (map (fun e : nat * bool =>
+               if snd e && (a_first (ap_at a (fst e)) <=? g) then remaining_of a cl (fst e) else 0) l).
+
+(* (b) at full strength: a closed connection of a candidate that is still the
+   same peer entry belongs to a peer that is out of grace *)
+Definition closed_out_of_grace (a : astate) (g : Z) (l : list (nat * bool)) (cl : list (nat * nat)) : bool :=
+  forallb (fun pc : nat * nat =>
+             match find (fun e : nat * bool => Nat.eqb (fst e) (fst pc)) l with
+             | Some e => negb (snd e) || (a_first (ap_at a (fst pc)) <=? g)
+             | None => true
+             end) cl.
 
 Fixpoint lookup_code (p : nat) (l : list (nat * Z)) : Z :=
   match l with
@@ -134,8 +151,9 @@ Definition cmon_step (cfg : config) (m : cmst) (ev : event) : cmst + Z :=
       else inr 35
   | EClosed cl =>
       if negb (closed_code (m_cands m) (m_bad m) cl =? 0) then inr (closed_code (m_cands m) (m_bad m) cl)
+      else if negb (closed_out_of_grace a (m_gstart m) (m_cands m) cl) then inr 37
       else if negb (m_proceed m) && negb (is_nil cl) then inr 33
-      else if m_proceed m && negb (m_remaining a (m_cands m) cl <=? c_low cfg + m_added m) then inr 34
+      else if m_proceed m && negb (m_remaining a (m_gstart m) (m_cands m) cl <=? c_low cfg + m_added m) then inr 34
       else inl (mkCM a (m_tick m) false (m_proceed m) (m_gstart m) (m_cands m) (m_bad m) (m_added m))
   | ERead p v =>
       let x := ap_at a p in
